@@ -7,7 +7,7 @@
     LCGen.ProfileStrings regenerated from generatorprofile.cpp on every run: every statement below that mentions
     profile_C / profile_Py / prof k is re-checked against the strings the library has NOW. *)
 From Coq Require Import String Ascii List Bool Arith.
-From LC Require Import Common AstDefs GenDefs EmitDefs EmitProofs.
+From LC Require Import Common AstDefs GenDefs EmitDefs EmitProofs EmitIndexProofs.
 From LCGen Require Import AstTypes ProfileStrings ProfileMembers.
 Import ListNotations.
 Local Open Scope string_scope.
@@ -401,6 +401,62 @@ Theorem C17_set_profile_refuted_when_unassigned :
 Proof. exact EmitProofs.set_profile_refuted_when_unassigned. Qed.
 Print Assumptions C17_set_profile_refuted_when_unassigned.
 
+(** ** 6c. index safety and two-way agreement (EmitIndexProofs.v)
+    Every index with which the generated code can address an array cell is strictly below the declared constant: the
+    index of every state is below STATE_COUNT, of every variable below VARIABLE_COUNT, and every (type, index) an equation
+    lists (what addNlaSystemsCode / generateVariableNameCode print as rates[i] / states[i] / variables[i]) is below the
+    length of the array chosen for that type — for every analysed model, unbounded; hypotheses: C05's wf_indices
+    (re-validated on every accessor dump) and [refs_resolve] (the variables an equation lists are states / variables of the
+    model: how the analyser builds AnalyserEquation::variables(); stated, not re-validated by the check). *)
+Theorem C17_every_index_below_count : forall m, wf_indices m ->
+  (forall v, In v (am_states m) -> av_index v < length (am_states m))
+  /\ (forall v, In v (am_variables m) -> av_index v < length (am_variables m))
+  /\ (refs_resolve m -> forall e t i, In e (am_equations m) -> In (t, i) (ae_vars e) -> i < array_length m t).
+Proof. exact EmitIndexProofs.every_index_below_count. Qed.
+Print Assumptions C17_every_index_below_count.
+
+(** those lengths are the numbers the code declares, in both profiles *)
+Theorem C17_count_constants_are_bounds : forall k m, has_odes m = true ->
+  state_and_variable_count_code (prof k) m false =
+  count_line k "STATE_COUNT" (array_length m VState) ++ count_line k "VARIABLE_COUNT" (array_length m VConstant).
+Proof. exact EmitIndexProofs.count_constants_are_bounds. Qed.
+Print Assumptions C17_count_constants_are_bounds.
+
+(** NLA systems: the declared size of u[] is the number of unknowns, so every position of an unknown is below it, and
+    every unknown's own cell is below its array's COUNT *)
+Theorem C17_nla_indices_below_size : forall m idx size, wf_indices m -> refs_resolve m -> In (idx, size) (nla_systems m) ->
+  exists e, In e (am_equations m) /\ ae_nla_index e = idx /\ size = length (ae_vars e)
+            /\ (forall j, j < length (ae_vars e) -> j < size)
+            /\ (forall t i, In (t, i) (ae_vars e) -> i < array_length m t).
+Proof. exact EmitIndexProofs.nla_indices_below_size. Qed.
+Print Assumptions C17_nla_indices_below_size.
+
+(** the converse of C17_declared_defined_once: whatever the C implementation defines is declared in the interface, or is a
+    helper's definition, or an NLA function; hence declared = defined minus helpers minus NLA functions, exactly *)
+Theorem C17_defined_are_declared_or_internal : forall m s, In s (defined_sigs profile_C m) ->
+  In s (declared_sigs profile_C m)
+  \/ (exists h, In h (helpers_emitted profile_C m) /\ s = def_sig (function_string profile_C h))
+  \/ In s (map def_sig (nla_templates profile_C m)).
+Proof. exact EmitIndexProofs.defined_are_declared_or_internal. Qed.
+Print Assumptions C17_defined_are_declared_or_internal.
+
+Theorem C17_declared_iff_defined : forall m s,
+  In s (declared_sigs profile_C m) <->
+  (In s (defined_sigs profile_C m)
+   /\ (forall h, s <> def_sig (function_string profile_C h))
+   /\ ~ In s (map def_sig (nla_templates profile_C m))).
+Proof. exact EmitIndexProofs.declared_iff_defined. Qed.
+Print Assumptions C17_declared_iff_defined.
+
+Example C17_index_example :
+  wf_indices ex_model /\ refs_resolve ex_model /\ In (0, 1) (nla_systems ex_model)
+  /\ array_length ex_model VAlgebraic = 3 /\ array_length ex_model VState = 1
+  /\ In "void computeRates(double voi, double *states, double *rates, double *variables, ExternalVariable externalVariable)" (declared_sigs profile_C ex_model)
+  /\ In "void findRoot0(double voi, double *states, double *rates, double *variables)" (defined_sigs profile_C ex_model)
+  /\ ~ In "void findRoot0(double voi, double *states, double *rates, double *variables)" (declared_sigs profile_C ex_model).
+Proof. exact EmitIndexProofs.index_example. Qed.
+Print Assumptions C17_index_example.
+
 (** ** 7. validity guards *)
 
 (** no model, no profile, or a model whose type is not ODE / DAE / NLA / ALGEBRAIC: both code strings are empty,
@@ -454,6 +510,8 @@ Print Assumptions C17_helper_table_Py.
    - "the C code compiles without diagnostics other than unused-parameter / unused-variable" and "the Python code
      loads": compiler / interpreter behaviour (A-cc).  The check compiles and loads every generated model; two
      classes of gcc diagnostics are known findings (known_findings.d/C17.json).
+   - (index safety of the text INSIDE method bodies is C03's domain: bodies are holes here; C17_every_index_below_count
+     bounds every index the analysed model can hand to them)
    - the names of ALL defined functions are pairwise distinct, including objectiveFunction<i> / findRoot<i> over the
      NLA system indices (checked on the generated text; C17_declared_defined_once covers the declared functions).
    - the method bodies (generateEquationCode etc.) are C03's subject; here they are holes of the implementation.
